@@ -21,6 +21,7 @@ def run(chk):
     rng = random.Random(chk.seed * 91 + 9)
     chk.queue([isoprogs.history_program(rng) for _ in range(700 if thorough else 160)], 'random-histories')
     chk.queue([isoprogs.history_program(rng, length=80, nkeys=40) for _ in range(2000 if thorough else 400)], 'random-short-histories')
+    chk.queue([isoprogs.long_literal_program(rng, lsb0=(i % 5 == 4)) for i in range(600 if thorough else 150)], 'long-literal-reuse')
     from . import common
     common.run_mech_behaviours(chk, num=2000 if thorough else 300, procs=4)
     mech(chk, thorough)
